@@ -731,3 +731,77 @@ def expand_large_samples(case) -> dict:
     c["crng"] = None if case["crng_kind"] == "none" else ([] if case["crng_kind"] == "empty" else list(range(min(ns, case["crng_len"]))))
     c["mperm"] = list(np.random.RandomState(case["mperm_seed"]).permutation(len(shape)))
     return c
+
+
+# --------------------------------------------------------------------------
+# round 4: how a caller presents valid arguments (subscripts / values / weights in other dtypes and memory layouts),
+# models with one long mode (mode length x rank above what a narrow subscript dtype holds), process environment
+# --------------------------------------------------------------------------
+
+DTYPE_MAX.update({"int8": 127, "int16": 32767, "uint32": 2**32 - 1, "uint64": 2**53, "int64": 2**53})
+EPS32 = float(np.finfo(np.float32).eps)
+SLACK32 = EPS32 / EPS  # a tolerance sized for double precision becomes the same bound in single precision
+NARROW_MAX = {"int8": 127, "uint8": 255, "int16": 32767, "uint16": 65535}
+SUB_DTYPES = ["int8", "uint8", "uint8", "int16", "uint16", "uint16", "int32", "int32", "uint32", "uint64", "int64"]
+LAYOUTS = [None, None, "F", "strided", "readonly"]
+VAL_DTYPES = DATA_DTYPES[:-1] + ["float32", "float32", "int16", "uint64"]
+SW_DTYPES = ["float64", "float64", "float32", "int64", "int32", "uint8", "uint16"]
+ENVS = [None, None, None, "debug-logging"]
+
+
+def present_array(a: np.ndarray, layout) -> np.ndarray:
+    """the same array (values, dtype, shape) in another memory presentation: Fortran order, a strided view (every
+    second element of a larger buffer along every axis; the skipped elements hold other values), a read-only array"""
+    a = np.asarray(a)
+    if layout == "F":
+        return np.asfortranarray(a)
+    if layout == "readonly":
+        b = a.copy(order="K")
+        b.setflags(write=False)
+        return b
+    if layout == "strided" and a.ndim >= 1:
+        big = np.ones(tuple(2 * n for n in a.shape), dtype=a.dtype)
+        v = big[tuple(slice(None, None, 2) for _ in a.shape)]
+        v[...] = a
+        return v
+    return a
+
+
+def as_presented(values: np.ndarray, dtype):
+    """(array in the requested dtype, float64 image of what that array holds).  float32: the request *is* the rounded
+    data (its float64 image is the reference); integer dtypes only when they hold every value exactly (see typed)"""
+    v = np.asarray(values, dtype=float)
+    if dtype == "float32":
+        a = v.astype(np.float32)
+        return a, a.astype(float)
+    a = typed(v, dtype)
+    return a, v
+
+
+@st.composite
+def long_shape(draw, sdtype, max_other=3):
+    """(shape, rank, position of the long mode): the subscripts of the long mode fit the dtype `sdtype`, but
+    (mode length x rank) - the size of that mode's factor matrix - mostly does not"""
+    cap = NARROW_MAX.get(sdtype) or draw(st.sampled_from([255, 255, 65535]))
+    rank = draw(st.sampled_from([1, 2, 2, 3, 4, 4]))
+    lo = cap // max(rank, 2) + 1
+    L = draw(st.one_of(st.integers(lo, cap + 1), st.sampled_from([cap + 1, cap, lo])))
+    others = draw(st.lists(st.integers(1, 3), min_size=1, max_size=max_other))
+    while ref.prod(others) > 6:
+        others = others[:-1]
+    pos = draw(st.integers(0, len(others)))
+    return others[:pos] + [L] + others[pos:], rank, pos
+
+
+def expand_long(case) -> dict:
+    """a compact long-mode case -> ordinary case: factor matrices (and, for the all-entries cell, the data) from a seed"""
+    if not case.get("long"):
+        return case
+    rs = np.random.RandomState(case["seed"])
+    c = dict(case)
+    c["factors"] = [_seeded_factor(rs, m, case["rank"], case["loss"]) for m in case["shape"]]
+    if case.get("full"):
+        n = ref.prod(case["shape"])
+        v = _seeded_values(rs, n, case["loss"])
+        c["data"] = np.where(rs.uniform(size=n) < 0.6, v, 0.0)
+    return c
